@@ -88,7 +88,8 @@ Inductive sval : Type :=
 | SInner (m n : string)      (* what method m (same class) resolves for its argument n when a call does not pass
                                 it: innermost context that sets n, else m's default *)
 | SVarg (i : nat)            (* the i-th extra positional argument *)
-| SKeyX (a : sval) | SKeyY (a : sval).    (* coordinates of the first key of a routing-table dictionary *)
+| SKeyX (a : sval) | SKeyY (a : sval)     (* coordinates of the first key of a routing-table dictionary *)
+| SFirst (a : sval).         (* a itself when it is one board, the first board named when it is a collection *)
 
 Inductive sroute : Type :=
 | RChip (x y : sval)                 (* MachineController: the connection chosen for chip (x, y) *)
@@ -118,6 +119,7 @@ Fixpoint den (g : callctx) (sv : sval) (v : value) : Prop :=
   | SVarg i => nth_error (skipn (List.length (sg_params (cc_sig g))) (cc_pos g)) i = Some v
   | SKeyX a => exists u, den g a u /\ key_x u = Some v
   | SKeyY a => exists u, den g a u /\ key_y u = Some v
+  | SFirst a => exists u, den g a u /\ first_of u = Some v
   end.
 
 Definition field_den (g : callctx) (sf : fkind * nat * Z * sval) (f : fkind * nat * Z * value) : Prop :=
@@ -287,9 +289,10 @@ Definition to_board (bd cmd : sval) fields : swire :=
 Definition bmp_declared : list (string * list pitem) :=
   [ ("send_scp", [one (to_board (A "board") (SVarg 0) [])]);
     ("get_software_version", [one (to_board (A "board") (C SCP_sver) [])]);
-    (* power commands go to board 0 of the frame; the board named is the bit set in arg2 *)
+    (* power commands go to board 0 of the frame; the board(s) named are the bits set in arg2 *)
     ("set_power", [one (to_board (C 0) (C SCP_power) [(FBit, 1%nat, 0, A "board")])]);
-    ("set_led", [one (to_board (A "board") (C SCP_led) [(FBit, 1%nat, 0, A "board")])]);
+    (* set_led: to the first board named; the mask in arg2 names every board of the collection *)
+    ("set_led", [one (to_board (SFirst (A "board")) (C SCP_led) [(FBit, 1%nat, 0, A "board")])]);
     ("read_fpga_reg", [one (to_board (A "board") (C SCP_link_read) [])]);
     ("write_fpga_reg", [one (to_board (A "board") (C SCP_link_write) [])]);
     ("read_adc", [one (to_board (A "board") (C SCP_bmp_info) [])]) ].
